@@ -369,7 +369,7 @@ func (b *TableColumnGroupBox) span() int {
 	if len(b.Children) != 0 {
 		return len(b.Children)
 	}
-	return integerAttribute(utils.HTMLNode(*b.Element).Get("span"), 1)
+	return integerAttribute(utils.HTMLNode(*b.Element).Get("span"), 1, 1000)
 }
 
 // Return cells that originate in the group's columns.
@@ -390,12 +390,14 @@ func NewTableColumnBox(style pr.ElementStyle, element *html.Node, pseudoType str
 }
 
 func (b *TableColumnBox) span() int {
-	return integerAttribute(utils.HTMLNode(*b.Element).Get("span"), 1)
+	return integerAttribute(utils.HTMLNode(*b.Element).Get("span"), 1, 1000)
 }
 
 // Read an integer attribute from the HTML element.
 // If is invalid, it default to 1
-func integerAttribute(attr string, minimum int) int {
+// The value is clamped to [minimum, maximum], as HTML requires for
+// colspan and span (1..1000) and rowspan (0..65534).
+func integerAttribute(attr string, minimum, maximum int) int {
 	value := strings.TrimSpace(attr)
 	intValue, err := strconv.Atoi(value)
 	if err != nil {
@@ -403,6 +405,9 @@ func integerAttribute(attr string, minimum int) int {
 	}
 	if intValue < minimum {
 		intValue = minimum
+	}
+	if intValue > maximum {
+		intValue = maximum
 	}
 	return intValue
 }
@@ -416,8 +421,8 @@ func NewTableCellBox(style pr.ElementStyle, element *html.Node, pseudoType strin
 	// but HTML 5 removed it
 	// http://www.w3.org/TR/html5/tabular-data.html#attr-tdth-colspan
 	// rowspan=0 is still there though.
-	out.Colspan = integerAttribute(utils.HTMLNode(*element).Get("colspan"), 1)
-	out.Rowspan = integerAttribute(utils.HTMLNode(*element).Get("rowspan"), 0)
+	out.Colspan = integerAttribute(utils.HTMLNode(*element).Get("colspan"), 1, 1000)
+	out.Rowspan = integerAttribute(utils.HTMLNode(*element).Get("rowspan"), 0, 65534)
 	return &out
 }
 
